@@ -32,6 +32,8 @@ pub(crate) fn wf_board(b: &Board) -> bool {
         // DAC voltages are always byte / 100 (or the power-on 0.0): in particular never NaN
         && b.analog_outputs[0] == b.analog_outputs[0]
         && b.analog_outputs[1] == b.analog_outputs[1]
+        // the fan never turns faster than its documented maximum (4200 rpm at 2.55 V)
+        && b.fan_rpm <= 4200
 }
 
 /// Field-by-field equality with floats compared by bit pattern (NaN-safe frame conditions).
